@@ -91,8 +91,29 @@ Fixpoint first_true (l : list bool) : nat :=
 Definition argmax_bool (l : list bool) : nat :=
   let k := first_true l in if k <? length l then k else 0.
 
-(* `_ScaleMedian._weighted_median(sorted_counts, sorted_values)` *)
+(* `_ScaleMedian._weighted_median(sorted_counts, sorted_values)` (as repaired by dda43200):
+     sorted_counts = nan_to_num(sorted_counts); cum = cumsum(sorted_counts)
+     cum[-1] == 0 -> nan
+     median_idx = argmax(cum / cum[-1] >= 0.5)
+     exactly 0.5 -> mean of values[median_idx] and values[next_idx] where
+       next_idx = median_idx + 1 + argmax(sorted_counts[median_idx + 1:] > 0)
+     (the next category, in value order, that HAS counts)                                 *)
 Definition weighted_median (sorted_counts : list xq) (sorted_values : list Q) : xq :=
+  let cs := map nan_to_num sorted_counts in
+  let cum := cumsum cs in
+  let total := last cum 0%Q in
+  if Qeq_bool total 0 then NaN else
+  let props := map (fun c => c / total)%Q cum in
+  let idx := argmax_bool (map (fun p => Qle_bool (1 # 2) p) props) in
+  if Qeq_bool (nth idx props 0%Q) (1 # 2)
+  then let nxt := S idx + argmax_bool (map (fun c => negb (Qle_bool c 0)) (skipn (S idx) cs)) in
+       Fin ((nth idx sorted_values 0 + nth nxt sorted_values 0) / 2)%Q
+  else Fin (nth idx sorted_values 0%Q).
+
+(* HISTORICAL, used by nothing in the model: the rule before the repair dda43200 averaged with
+   `median_idx + 1`, the next category in value order even when it is empty.  Kept only for the
+   statement (Proofs/ScaleMedianFixProofs.v) that it was not a median. *)
+Definition weighted_median_v0 (sorted_counts : list xq) (sorted_values : list Q) : xq :=
   let cs := map nan_to_num sorted_counts in
   let cum := cumsum cs in
   let total := last cum 0%Q in
@@ -180,9 +201,15 @@ Definition strand_scale_stddev_sq (counts vals : list xq) : option xq :=
   option_map sqrt_arg (strand_scale_var counts vals).
 Definition strand_scale_stderr_sq (counts vals : list xq) : option xq :=
   option_map (fun v => sqrt_arg (xdiv v (strand_total counts vals))) (strand_scale_var counts vals).
-(* np.median(np.repeat(values, int(counts))): NaN (not None) for an empty expansion *)
+(* `_ScaledCounts.scale_median` (as repaired by 2ba43316), in the order of the code:
+     _numeric_values.size == 0 (no category has a value)            -> None
+     np.repeat(values, int(counts)).size == 0 (nobody to expand)    -> None
+     otherwise np.median of the expansion                                                   *)
 Definition strand_scale_median (counts vals : list xq) : option xq :=
   match valued_pairs vals counts with
   | [] => None
-  | _ => Some (match expand_valued vals counts with [] => NaN | e => Fin (np_median e) end)
+  | _ => match expand_valued vals counts with
+         | [] => None
+         | e => Some (Fin (np_median e))
+         end
   end.
